@@ -141,8 +141,11 @@ class C02(Property):
           "calls incl. time-varying, cascade/parallel filters, blockenizers, "
           "analysis tools, mixer, resampler, overlap-add, STFT wrapper, "
           "record stream) over finite/endless simulator-owned sources, "
-          "optional fan-out (copy/tee/thub) with per-endpoint tail stages, "
-          "driven by a seeded demand schedule; reads compared with an "
+          "optional fan-out (copy/tee/thub, a hub object peeked through a "
+          "spare use) with per-endpoint tail stages and stages built late on "
+          "endpoints that already served demand, driven by a seeded demand "
+          "schedule (next / take / peek / plain iteration, rarely hundreds of "
+          "items at once); reads compared with an "
           "executed minimal-read reference pipeline after construction and "
           "after every step. distinct = distinct (pipeline, sources, demand "
           "schedule) digest; non-trivial = depth >= 2 or fan-out or a source "
